@@ -1251,6 +1251,10 @@ def run(ck):
         ck.violation({"property": "C15", "kind": "generator: (almost) no recorded proof node comes from a recursive rule with a "
                       "test in front of the recursive atom", "no_longer_checks": "correspondence Run.C15.judge (input "
                       "distribution broken: seeded C15-2 class)", "count": st["tba_nodes"]}, "no-failing-input-found")
+    if st["alt_same_prefix3"]["posthoc"] < 20 and nwide >= 20 and not ck.violations:
+        ck.violation({"property": "C15", "kind": "generator: (almost) no post-hoc goal has two alternatives of one rule with >= 4 "
+                      "premises that agree on the first three premises", "no_longer_checks": "correspondence Run.C15.judge "
+                      "(input distribution broken: seeded C15-4 class)", "count": st["alt_same_prefix3"]}, "no-failing-input-found")
     feats = {}
     for p in progs:
         for f in p.get("features", ["corpus"]):
@@ -1269,16 +1273,26 @@ def run(ck):
            "proof_nodes": st["nodes"], "max_proof_height": st["max_depth"], "identifiers_checked": st["ids"],
            "reference_explainer_runs": st["ref_runs"], "distinct_nontrivial": len(nontrivial),
            "rule": "programs through parse -> AnalyzeOneUnit -> EvalProgram (without / with MemoryRecorder) -> Explain and "
-                   "BuildFromRecording for every stored fact (corpus %d, random %d, cyclic %d, exhaustive %d); evaluations = "
+                   "BuildFromRecording for every stored fact (corpus %d, random %d, cyclic %d, wide joins %d, exhaustive %d); evaluations = "
                    "(goal, mode) explanations judged by check_proof in Coq against the rules of the PROGRAM (a node whose rule "
                    "text is not one of ProgramInfo.Rules has no rule: rejected); non-trivial = recursion, negation, binding "
                    "equality, initial fact of a derived predicate or let-transform present; distinct by program text"
-                   % (ncorpus, nrandom, ncyclic, nexh),
+                   % (ncorpus, nrandom, ncyclic, nwide, nexh),
            "cyclic_stream": "rings of 2-4 mutually recursive predicates with chords, 1-2 entries, goal rules over 2-3 ring members, "
                             "guards with a test in front of the recursive atom, walks along a cyclic graph; all clauses shuffled",
            "test_before_atom": {"programs_with_such_a_recursive_rule": n_tba_progs,
                                 "recorded_proof_nodes_of_such_rules": st["tba_nodes"]["recorded"],
                                 "posthoc_proof_nodes_of_such_rules": st["tba_nodes"]["posthoc"]},
+           "wide_join_stream": "goal rules with 3-8 positive body atoms over fan-out relations (several matching facts for the "
+                               "last and for middle atoms under one prefix), tests / negated atoms / binding equalities in between, "
+                               "derived lower predicates, MaxProofs 2 / 3 / 5, both modes",
+           "alternatives": {"goals_with_two_or_more_proofs": st["alt_goals"],
+                            "pairs_of_alternatives_of_one_rule": dict(sorted(st["alt_pairs"].items())),
+                            "pairs_with_4_or_more_premises_agreeing_on_the_first_3": st["alt_same_prefix3"],
+                            "oracle_different_bindings_same_premises": st["alt_bad"],
+                            "judged": "EVERY returned alternative is judged by check_proof (judge_goal: existsb over all proofs); "
+                                      "in addition the oracle alt_findings (Go output only): alternatives of one rule with "
+                                      "different bindings have different premise facts"},
            "exhaustive_blocks": exh_blocks,
            "exhaustive": nexh > 0,
            "exhaustive_scope": ("(1) every clause order (all permutations) of the ring programs p1 :- p2, .., pn :- p1, p1 :- p0, "
@@ -1321,7 +1335,7 @@ def replay(ck, path):
     rep = json.load(open(path))
     prog, opts = rep["program"], rep["opts"]
     outs, go_cases, where, verdicts, st = evaluate(ck, [prog], [opts], ["replay"], ref_every=1)
-    bad = "out" not in outs[0] or outs[0]["out"]["stage"] != "ok" or st["store_diff"] or st["rule_mismatch"]
+    bad = "out" not in outs[0] or outs[0]["out"]["stage"] != "ok" or st["store_diff"] or st["rule_mismatch"] or st["alt_bad"]
     if "out" in outs[0] and outs[0]["out"]["stage"] == "ok":
         b, _ = id_findings(outs[0]["out"]["goals"])
         bad = bad or bool(b)
